@@ -22,6 +22,21 @@ KINDS = ['gauss', 'family', 'independent', 'monotone', 'antimonotone', 'tau0', '
          'outside', 'permuted']
 
 
+def frank_tol(tau):
+    """Accuracy of the library's numerical tau -> theta inversion, measured on the pinned tree (residual
+    1.9e-3 for |tau| <= 1e-3, 6e-5 at 0.01, 2.4e-6 at 0.05, <= 1e-8 for 0.1 <= |tau| <= 0.99), with a factor >= 3."""
+    t = abs(tau)
+    if t < 0.01:
+        return 5e-3
+    if t < 0.05:
+        return 2e-4
+    if t < 0.2:
+        return 2e-5
+    if t < 0.9:
+        return 2e-6        # measured <= 2.5e-7
+    return 5e-5            # measured 1.1e-6 at |tau| = 0.99 (3 600 random tau)
+
+
 def cases(seed, tier):
     rng = rng_for(seed, 'C10')
     reps = 14 if tier == 'quick' else 300
@@ -146,7 +161,7 @@ def judge_fit(ctx, fam, X, where, probe_prefix='fit'):
         ctx.note('Frank |tau| > 0.99: theta saturates at the exponent bound (not judged)')
     else:
         tref = float(arch.Arch('frank', theta).tau()) if np.isfinite(theta) else float(np.sign(theta))
-        ctx.check(abs(tref - tb) <= 5e-3, probe_prefix + '.theta-calibrated', 'C10:frank-theta-miscalibrated',
+        ctx.check(abs(tref - tb) <= frank_tol(tb), probe_prefix + '.theta-calibrated', 'C10:frank-theta-miscalibrated',
                   lambda: dict(where, theta=theta, tau_of_theta=tref, tau_b=tb))
         ctx.maxstat('Frank |tau(theta) - tau_b|', abs(tref - tb), dict(where, tau_b=tb, theta=theta))
     return model
